@@ -84,6 +84,7 @@ func r(m dsl.Matcher) {
 	m.Match("probe($x)").Report("$x")
 	m.Match("sugg($x)").Report("M").Suggest("$x")
 	m.MatchComment("LONG (?P<body>[a-zA-Z]+)").Report("$body").Suggest("$body")
+	m.Match("addr($x)").Report("$x.Reset()")
 }`))
 	if err != nil {
 		return fmt.Errorf("load: %v", err)
@@ -93,13 +94,23 @@ func r(m dsl.Matcher) {
 		M = 140
 	}
 	var sb strings.Builder
-	sb.WriteString("package p\nfunc probe(string){}\nfunc sugg(string){}\nfunc f() {\n")
+	sb.WriteString("package p\nfunc probe(string){}\nfunc sugg(string){}\ntype R struct{}\nfunc (*R) Reset() {}\nfunc addr(*R) {}\nfunc f() {\n")
 	for n := 2; n <= M; n++ {
 		lit := `"` + string(c15Text(n-2)) + `"`
 		fmt.Fprintf(&sb, "\tprobe(%s)\n\tsugg(%s)\n", lit, lit)
 	}
 	for n := 2; n <= M; n++ {
 		fmt.Fprintf(&sb, "\t// LONG %s\n", string(c15Text(n)))
+	}
+	sb.WriteString("}\n")
+	// `$x.` in a template with $x bound to `&v` is rendered as `v.`: the text that is interpolated (and measured) is `v`
+	c15Ident := func(n int) string { return "Z" + string(c15Text(n-1)) }
+	for n := 2; n <= M; n++ {
+		fmt.Fprintf(&sb, "var %s R\n", c15Ident(n))
+	}
+	sb.WriteString("func g() {\n")
+	for n := 2; n <= M; n++ {
+		fmt.Fprintf(&sb, "\taddr(&%s)\n", c15Ident(n))
 	}
 	sb.WriteString("}\n")
 	t, err := hx.ParseTarget("c15.go", sb.String())
@@ -140,10 +151,26 @@ func r(m dsl.Matcher) {
 			res.Dist("e2e:panic")
 			continue
 		}
-		if len(reports) != 3*(M-1) {
-			res.Errorf("e2e: expected %d reports, got %d (cfg=%d)", 3*(M-1), len(reports), cfg)
+		if len(reports) != 4*(M-1) {
+			res.Errorf("e2e: expected %d reports, got %d (cfg=%d)", 4*(M-1), len(reports), cfg)
 			continue
 		}
+		// g() follows f(): reports 2(M-1) .. 3(M-1) are the `$x.Reset()` ones
+		for i, r := range reports[2*(M-1) : 3*(M-1)] {
+			n := 2 + i
+			src := []byte(c15Ident(n))
+			got := r.Message
+			if strings.HasSuffix(got, ".Reset()") {
+				got = strings.TrimSuffix(got, ".Reset()")
+			}
+			ops = append(ops, fmt.Sprintf("interp 1 %s %d", hx.Hex(src), cfg))
+			impl = append(impl, "ok "+hx.HexS(got))
+			specOps = append(specOps, fmt.Sprintf("spec15 1 %s %d ok %s", hx.Hex(src), cfg, hx.HexS(got)))
+			inputs = append(inputs, map[string]interface{}{"TruncateLen": cfg, "len": n, "template": "$x.Reset()", "capture": "&" + string(src), "message": r.Message})
+			res.Dist("e2e:report-address-of-operand-before-a-dot")
+			res.Count("e2e", fmt.Sprintf("a%d/%d", n, cfg), true)
+		}
+		reports = append(reports[:2*(M-1):2*(M-1)], reports[3*(M-1):]...)
 		// comment rules are run after the syntax walk: the last M-1 reports are the comment ones
 		for i, r := range reports[2*(M-1):] {
 			n := 2 + i
